@@ -136,6 +136,11 @@ def _cstmts(stmts, ctr, kn, ke, kr):
     op = st["op"]
     R = lambda: _cstmts(rest, ctr, kn, ke, kr)
     if op == "yield":
+        if st.get("again"):
+            # the same container of stored handles is yielded twice: for the model, two yields of the same structure
+            first = {k: v for k, v in st.items() if k != "again"}
+            second = dict(first, x=st["again"])
+            return _cstmts([first, second] + rest, ctr, kn, ke, kr)
         o, e = ctr.fresh("o"), ctr.fresh("e")
         return "Yield %s (fun %s => match %s with Ok %s => %s | Err %s => %s end)" % (
             cstruct(st["s"], ctr), o, o, st["x"], R(), e, ke(e))
@@ -308,13 +313,17 @@ def _pstmts(stmts, py, ind):
         if op == "yield":
             expr = pstruct(st["s"], py, ind)
             py.emit(ind, "_y = %s" % expr)
-            py.emit(ind, "T.pre_yield(_id, _k, _y)")
-            py.emit(ind, "try:")
-            py.emit(ind + 1, "%s = yield _y" % st["x"])
-            py.emit(ind, "except Exception as _e:")
-            py.emit(ind + 1, "T.step_err(_id, _k, _e, _y); raise")
-            py.emit(ind, "else:")
-            py.emit(ind + 1, "T.step(_id, _k, %s, _y)" % st["x"])
+            for i, var in enumerate([st["x"]] + ([st["again"]] if st.get("again") else [])):
+                # _s: a copy of the yielded structure taken before the first yield (the library must not be able to
+                # change what the harness compares against); with "again" the SAME object _y is yielded a second time
+                # and is expected to mean the same futures
+                py.emit(ind, "_s = T.pre_yield(_id, _k, %s)" % ("_y" if i == 0 else "_s"))
+                py.emit(ind, "try:")
+                py.emit(ind + 1, "%s = yield _y" % var)
+                py.emit(ind, "except Exception as _e:")
+                py.emit(ind + 1, "T.step_err(_id, _k, _e, _s); raise")
+                py.emit(ind, "else:")
+                py.emit(ind + 1, "T.step(_id, _k, %s, _s)" % var)
         elif op == "let":
             expr = pfexpr(st["f"], py, ind)
             py.emit(ind, "%s = %s" % (st["h"], expr))
